@@ -320,7 +320,7 @@ CHECKS = {
                  "seen an intervening commit (classes: after dml / ddl / growth / shrink / vacuum). Distinct = fingerprint of the spec."),
         "assumptions": ["system libsqlite3 (3.40.1) is writer and reference"],
         "min_nontrivial": {"quick": 150, "thorough": 3000},
-        "required_classes": ["handle-opened-mid-transaction", "reads-refused-in-between", "read-while-sibling-handle-in-transaction", "read-while-another-connection-has-an-open-write-transaction", "read-after:dml", "read-after:ddl", "read-after:growth", "read-after:vacuum", "read-after:pagesize", "file-grew", "more-than-100-pages", "short-tail-row-read-twice", "index-redefined-under-its-name", "starts-in-schema-format=2", "starts-in-schema-format=3", "every-row-rewritten"],
+        "required_classes": ["handle-opened-mid-transaction", "reads-refused-in-between", "read-while-sibling-handle-in-transaction", "read-while-another-connection-has-an-open-write-transaction", "read-after:dml", "read-after:ddl", "read-after:growth", "read-after:vacuum", "read-after:pagesize", "file-grew", "more-than-100-pages", "short-tail-row-read-twice", "index-redefined-under-its-name", "starts-in-schema-format=2", "starts-in-schema-format=3", "every-row-rewritten", "change-counter-wraps=true"],
         "timeout": {"quick": 400, "thorough": 2400},
         "jobs": [
             job("history", "c08", ["TestC08History"], 130, 2500, 4, 12),
@@ -383,10 +383,11 @@ CHECKS = {
                  "(database pages already overwritten, recovery pending). Distinct = fingerprint of (spec, k, torn)."),
         "assumptions": ["system libsqlite3 (3.40.1) is writer and recovery reference", "LD_PRELOAD interposition sees every file operation of the writer (checked: the uninterrupted run's log is non-empty and the kill happens at each k)"],
         "min_nontrivial": {"quick": 60, "thorough": 2000},
-        "required_classes": ["crash:DELETE", "crash:TRUNCATE", "crash:PERSIST", "journal-left:magic", "journal-left:absent", "sqlittle-read", "sqlittle-refused", "sector:4096", "sector:512", "synchronous:OFF", "synchronous:FULL", "journal-size-limit-set", "journal-left:zero-shorter-than-a-header", "reads-without-file-descriptors", "handles-opened-under-a-live-spilled-transaction", "long-named-database-read"],
+        "required_classes": ["crash:DELETE", "crash:TRUNCATE", "crash:PERSIST", "journal-left:magic", "journal-left:absent", "sqlittle-read", "sqlittle-refused", "sector:4096", "sector:512", "synchronous:OFF", "synchronous:FULL", "journal-size-limit-set", "journal-left:zero-shorter-than-a-header", "reads-without-file-descriptors", "handles-opened-under-a-live-spilled-transaction", "long-named-database-read", "first-transaction:refused", "first-transaction:read-as-recovered"],
         "timeout": {"quick": 400, "thorough": 2400},
         "jobs": [
             job("crash", "c09", ["TestC09Crash"], 4, 60, 4, 12),
+            job("first", "c09", ["TestC09FirstTransaction"], 3, 30, 1, 4),
         ],
     },
     "C19": {
